@@ -164,6 +164,7 @@ pub fn run(ctx: &Ctx) -> i32 {
             rep.violation(v);
         }
     }
+    crate::fuzzstage::maybe(ctx, "C09", &mut ev, &mut rep);
     let code = rep.finish(&mut ev);
     ev.write();
     code
